@@ -380,3 +380,25 @@ Proof.
   - split; [intros e'; split; intros H; injection H as <-; reflexivity|]. split; [discriminate|discriminate].
   - exfalso. apply (Hnp q). reflexivity.
 Qed.
+
+(* ---------- finding F-08b: a container whose ELEMENT type was re-typed by the writer ---------- *)
+(* reader: struct Inner { 1: required i32 a; 4: optional list<i32> d }; the writer's field 4 is list<string> ["ab", "c"].
+   The field's wire type is List for both, the emitted container decoder never looks at the announced element type
+   and reads the elements at the declared type: a wrong value, and the rest of the message is left unread. *)
+Definition Re : schema := [ DStruct [mkField 1 Required TyI32 None; mkField 4 Optional (TyList TyI32) None] false false ].
+Definition tve : tval := VStruct [(1, VI32 7); (4, VList TBinary [VBinary [x61; x62]; VBinary [x63]])].
+
+Theorem elem_retyped_refuted :
+  exists R p k T tv ss,
+    wf_schema R = true /\ wt tv = true /\ ttype_of tv = ttype_of_ty R T /\
+    walk R skippable true T (VStruct [(1, VI32 7)]) = true /\                   (* the rest of the message is in the domain; no union occurs *)
+    evo_dom R T tv = false /\                                   (* only because field 4 announces another element type *)
+    write_val p k tv w0 = Ok (ss, w0) /\
+    gen_decode R p 40 T (mkS (flat ss) r0)
+      = Ok (GStruct [(1, GI32 7); (4, GList [GI32 2; GI32 1633812480])] [], mkS [x01; x63; x00] r0).
+Proof.
+  exists Re, PBinary, BContig, (TyRef 0), tve. eexists.
+  split; [vm_compute; reflexivity|]. split; [vm_compute; reflexivity|]. split; [vm_compute; reflexivity|].
+  split; [vm_compute; reflexivity|]. split; [vm_compute; reflexivity|].
+  split; [vm_compute; reflexivity|]. vm_compute. reflexivity.
+Qed.
